@@ -27,6 +27,36 @@ CHECKS = {
             'canonical path and query, and followed: it must reach the same route with the same parameters in one hop.',
             'trusts urllib.parse and the reference models; query strings that are not URL-legal are compared after percent-decoding',
             'DESIGN.md §4 C07'),
+    'C01': ('exploration',
+            'Hypothesis-generated configurations against a reference dependency resolver (model-based), then requests on accepted ones',
+            'Generated configurations (signatures incl. keyword-only / positional-only, 9 callable kinds, provides in all three '
+            'phases, resources, URL bindings) are constructed; accept/reject must equal the reference resolver (NameError when '
+            'unsatisfiable, cyclic graphs exempt) and every accepted configuration must serve a matching request, an unknown '
+            'path and a wrong method without any exception, calling exactly the expected functions.',
+            'trusts vlib/inject.py (M1), written from the statement and docs; exception messages not compared',
+            'DESIGN.md §4 C01, §3 G1/M1'),
+    'C02': ('exploration',
+            'Hypothesis-generated accepted configurations with identity sentinels; recorded arguments compared with the model source; AST check of generated chain code',
+            'Every call recorded by harness functions is compared, parameter by parameter and by object identity, with the '
+            'source the reference model assigns (URL value, registered resource object, built-in, value passed to next() in '
+            'this request, own default) over two consecutive requests plus 404/405, under several hash seeds; additionally '
+            'the generated chain sources in linecache are parsed and every call must pass k=k for declared, bound names.',
+            'trusts M1 source rule; positional-only parameters excluded (recorded under C01)',
+            'DESIGN.md §4 C02'),
+    'C03': ('exploration',
+            'Hypothesis-generated middleware stacks x one deviating function; trace compared with a reference onion interpreter',
+            'Stacks over up to 3 embedded application levels plus route level with unique/non-unique/non-reorderable types; '
+            'one function raises before/after next, returns early, swallows or replaces; the enter/saw-return/saw-exception '
+            'trace and the final outcome (by object identity, re-raising handler) must equal the interpreter\'s prediction.',
+            'trusts M1 merge rule and onion interpreter',
+            'DESIGN.md §4 C03'),
+    'C04': ('fault_enumeration',
+            'complete enumeration of a fault matrix (name-source pairs, reserved names, next/context misuse) on fixed base shapes + Hypothesis-varied bases',
+            'Each cell of the fault matrix (362 cells x provider with/without function) is injected into 3 fixed valid '
+            'configurations (complete) and into generated valid configurations (sampled); construction must fail (NameError '
+            'for conflicts / reserved names) while the un-faulted control constructs and serves.',
+            'the matrix is complete only for the listed source kinds and placements; same-kind resource overlaps are not asserted',
+            'DESIGN.md §4 C04'),
 }
 
 PENDING_REASON = 'check not built yet in this session (planned, see DESIGN.md §4); not claimed until it runs quietly on the unchanged tree'
